@@ -63,6 +63,20 @@ def run_thorough(ctx, repo_root):
     for n, rc, first in res:
         if rc == 0:
             R.ok("AUDIT behaviour-preserving transformations", n)
+    # behaviour-preserving refactorings written by sub-agents that saw only the property text (benign/): silent on each of them
+    import benign_patches
+    bres = benign_patches.run_for_prop(ctx.prop, repo_root)
+    R.rule("AUDIT refactorings", 60, "helper extraction, loops <-> comprehensions, guard clauses, named constants, aliases ... leave the check silent")
+    R.extra_cov["refactorings_run"] = len(bres)
+    stale_b = [n for n, st, _ in bres if st == "STALE"]
+    alarms = [(n, first) for n, st, first in bres if st == "ALARM"]
+    for n, st, _ in bres:
+        if st == "silent":
+            R.ok("AUDIT refactorings", n)
+    if stale_b:
+        R.info(f"{len(stale_b)} stored refactorings no longer apply to the current source (stale): {stale_b[:5]}")
+    if alarms:
+        raise AnalysisError(f"the check is not silent on a behaviour-preserving refactoring: {alarms[:2]}"[:500])
     if noisy:
         raise AnalysisError(f"the check is not silent on a behaviour-preserving transformation of the tree: {noisy[:2]}"[:400])
     if bad:
